@@ -64,7 +64,7 @@ def norm_structs(draw, dirty=False, platform_hosts=False, userinfo=True, lookali
     elif last == 2:
         segs.append("amp")
     elif last == 3:
-        segs.append(draw(st.sampled_from(["story.amp.html", "story.amp", "page.AMP", "a.amp.html"])))
+        segs.append(draw(st.sampled_from(["story.amp.html", "story.amp", "page.AMP", "a.amp.html", "..amp", ".amp", "..amp.html"])))
     s["segments"] = segs
     s["trailing_slash"] = draw(st.booleans()) if segs else draw(st.sampled_from([False, True]))
     # query
